@@ -211,6 +211,9 @@ fn fidelity(case: &Case, obs: &mut Obs) -> PropResult {
 	if let Some(size) = crate::classfile::gen::add_big_attribute(&mut model, case.big) {
 		obs.label(if size > 65535 { "attribute_payload>65535" } else { "attribute_payload<=65535" });
 	}
+	if let Some(table) = crate::classfile::gen::inflate_table(&mut model, case.big) {
+		obs.label(format!("table_with_300_entries:{table}"));
+	}
 	let canon = model.canon();
 	let mut projections: Vec<CClass> = Vec::new();
 	let mut forms_all: Vec<&'static str> = Vec::new();
